@@ -2,6 +2,7 @@ package sx
 
 import (
 	"fmt"
+	"unsafe"
 	"go/token"
 	"go/types"
 	"unicode/utf8"
@@ -716,6 +717,45 @@ func (it *Interp) builtin(g *G, fr *Frame, b *ssa.Builtin, args []Value, cc *ssa
 			}
 		}
 		return nil
+	case "String": // unsafe.String(ptr, len)
+		p, _ := args[0].(*Value)
+		n := int(cint(args[1]))
+		if n == 0 {
+			return ""
+		}
+		if p == nil {
+			it.fault("panic", "unsafe-string", "unsafe.String: ptr is nil and len is not zero", fr)
+		}
+		cells := unsafe.Slice(p, n)
+		bs := make([]byte, n)
+		for i, c := range cells {
+			bv := it.concretize(c.(IntV), "unsafe.String byte", 2)
+			bs[i] = byte(bv.C)
+		}
+		return string(bs)
+	case "SliceData":
+		s := args[0].(SliceV)
+		if s.Nil || cap(s.S) == 0 {
+			return (*Value)(nil)
+		}
+		return &s.S[:1][0]
+	case "StringData":
+		str := args[0].(string)
+		if len(str) == 0 {
+			return (*Value)(nil)
+		}
+		cells := make([]Value, len(str))
+		for i := 0; i < len(str); i++ {
+			cells[i] = mkInt(uint64(str[i]), 8, false)
+		}
+		return &cells[0]
+	case "Slice": // unsafe.Slice(ptr, len)
+		p, _ := args[0].(*Value)
+		n := int(cint(args[1]))
+		if p == nil {
+			return SliceV{Nil: true}
+		}
+		return SliceV{S: unsafe.Slice(p, n)}
 	case "ssa:wrapnilchk":
 		p, _ := args[0].(*Value)
 		if p == nil {
